@@ -143,4 +143,16 @@ CHECKS = {
         "note": "Given C10's feasibility, a reported d can only be too large; every alarm exhibits a strictly closer pair or a failing lower bound. Known findings matched by exact (function, pair).",
         "technique": "exhaustive enumeration of primitive-alphabet products on the real code vs separating-plane certificates / Lipschitz interval subdivision",
     },
+    "C06": {
+        "text": ("Three generated URDF robots (3-link chain, 4-link chain with prismatic joints, branching tree with asymmetric generated "
+                 "whitelists) with sphere/box/cylinder geometry plus capsule, cone and mesh colliders added with add_collider: every edge of "
+                 "the joint-configuration graph (all single-joint moves between all lattice configurations, 27/54/36 configurations) and "
+                 "all move sequences of length <= 3 are executed on a live BVH (set_joint + update_collider_poses). In every state: collider "
+                 "poses = transform manager; aabb_overlapping_colliders (all own colliders with/without whitelist, 6 external queries), "
+                 "aabb_overlapping_with_self, aabb_overlapping_with_other_bvh = all-pairs model; detect between the lower and upper set "
+                 "of the statement; detect_any = exists; live BVH = BVH built fresh at that configuration."),
+        "design_ref": "DESIGN.md 5 C06",
+        "note": "Trusted: pytransform3d transform manager / URDF parser. Colliding pairs whose AABBs miss by < 1e-9*L (grazing, inside C04's tolerance) are allowed but not required.",
+        "technique": "explicit-state exploration of the configuration graph on the real BVH vs all-pairs reference model and fresh-object differential oracle",
+    },
 }
